@@ -42,6 +42,11 @@ class Harness(Exception):
     pass
 
 
+class InjectedAbort(BaseException):
+    """Fault: the caller's scan is torn down at an arbitrary line (what a
+    KeyboardInterrupt, a MemoryError or a cancelled worker does)."""
+
+
 class HangDetected(BaseException):
     """An op ran far longer than anything the unchanged tree needs.  Wall time
     is used for nothing else: it never influences a result that completes."""
@@ -251,6 +256,38 @@ class W09:
             t = e
         self.record(f"{i}:{d}:tree", t)
 
+    def do_abort_scan(self, sid, i, d, spec):
+        """Crash point inside a scan: run it once to learn its length in traced
+        steps, then run it again and raise InjectedAbort at a seeded step.  The
+        aborted scan has no result; what is checked is that every later result
+        on the same scanner / in the same process is unaffected."""
+        sc = self.scanners[sid]
+        data = self.corpus[i]
+        scope = scope_files(spec.get("scope", "nokw"))
+        try:
+            with watchdog(OP_LIMIT):
+                t, n = sched.count_steps(scope, lambda: sc.scan(data, d), limit=SEQ_STEP_LIMIT * 8, exc=kernel.StepLimitExceeded)
+        except HangDetected:
+            raise Harness("stall in abort_scan dry run")
+        except (kernel.StepLimitExceeded, Exception) as e:  # noqa: BLE001
+            self.record(f"{i}:{d}:tree", e, task="dry")
+            return
+        self.record(f"{i}:{d}:tree", t, task="dry")
+        if n < 1:
+            return
+        at = 1 + (spec.get("seed", 0) % n)
+        self.counters["aborts_injected"] = self.counters.get("aborts_injected", 0) + 1
+        try:
+            with watchdog(OP_LIMIT):
+                sched.count_steps(scope, lambda: sc.scan(data, d), limit=at, exc=InjectedAbort)
+            self.counters["aborts_swallowed"] = self.counters.get("aborts_swallowed", 0) + 1
+        except InjectedAbort:
+            pass
+        except HangDetected:
+            raise Harness("stall in abort_scan")
+        except Exception:  # noqa: BLE001 - the scan may translate the fault; it has no result either way
+            pass
+
     def do_par_scan(self, sid, jobs, spec):
         sc = self.scanners[sid]
         scope = scope_files(spec.get("scope", "engine"))
@@ -283,7 +320,7 @@ class W09:
         for (i, d), fn in zip(jobs, fns):
             try:
                 with watchdog(OP_LIMIT * 2):
-                    t, n = sched.count_steps(scope, fn, counts, limit=SEQ_STEP_LIMIT * (1 if spec.get("scope", "engine") == "engine" else 40),
+                    t, n = sched.count_steps(scope, fn, counts, limit=SEQ_STEP_LIMIT * (1 if spec.get("scope", "engine") == "engine" else 8),
                                              exc=kernel.StepLimitExceeded)
             except HangDetected:
                 raise Harness(f"stall: dry run of input {i} exceeded {OP_LIMIT * 2}s of wall time")
@@ -295,8 +332,10 @@ class W09:
             self.record(f"{i}:{d}:tree", t, task="dry")
         policy = sched.make_policy(spec, len(fns) + 1, est, counts)
         s = KERNEL
-        s.begin_run(policy, scope, step_cap=20 * est + 1000, fault_seed=spec.get("seed", 0),
-                    timeout_fire_p=spec.get("timeout_fire_p", 0.0), hang_limit=60 * est + 2_000_000)
+        # every schedule executes the same work as the dry run (est steps) plus a little; anything
+        # beyond twice that and a million is a loop that does not end
+        s.begin_run(policy, scope, step_cap=None, fault_seed=spec.get("seed", 0),
+                    timeout_fire_p=spec.get("timeout_fire_p", 0.0), hang_limit=2 * est + 1_000_000)
         try:
             tasks = s.run_tasks(fns, real_timeout=PAR_LIMIT)
         except kernel.SimDeadlock as e:
@@ -415,6 +454,9 @@ class W09:
             k = op[0]
             if k == "par_scan":
                 self.do_par_scan(op[1], op[2], op[3])
+                continue
+            if k == "abort_scan":
+                self.do_abort_scan(op[1], op[2], op[3], op[4])
                 continue
             with lib_run(self.w, self.opi, self.interleavings):
                 if k == "new":
@@ -847,7 +889,13 @@ class W20:
         with fsim._real_open(infile, "wb") as fh:
             fh.write(data)
         outputs = {}
-        for self.opi, run in enumerate(w["runs"]):
+        # Fault runs are judged against the bytes a fault-free run of the same mode wrote
+        # (itself checked by the strict oracles), not against a rendering the harness assumes.
+        need_ref = sorted({r["mode"] for r in w["runs"] if (r.get("knobs") or {}).get("stdin_fault") or (r.get("knobs") or {}).get("stdout_fault")})
+        runs = [{"mode": m, "source": "stdin", "seed": 1, "knobs": {"chunk": "full"}, "reference": True} for m in need_ref] + list(w["runs"])
+        nref = len(need_ref)
+        for k, run in enumerate(runs):
+            self.opi = k - nref
             mode = run["mode"]
             argv = []
             flag = {"json": ("--json", "-j"), "replace": ("--replace", "-r"), "default": (None, None)}[mode][1 if run.get("short") else 0]
@@ -889,7 +937,7 @@ class W20:
                 exp = None
             if faulty:
                 self.counters["fault_runs"] += 1
-                self.check_faulty(mode, r, tree, ctree, data)
+                self.check_faulty(mode, r, tree, ctree, data, outputs.get(mode))
                 continue
             if r["status"] != 0 or r["stderr"]:
                 self.viol("cli_failed", f"{mode}/{run['source']}: status {r['status']} stderr {r['stderr'][-300:]!r}")
@@ -1045,17 +1093,13 @@ class W20:
         if out != flat:
             self.viol("replace_not_flatten", f"--replace wrote {out[:80]!r}… but flatten() is {flat[:80]!r}…")
 
-    def check_faulty(self, mode, r, tree, ctree, data):
-        """Narrow relaxation: the run may fail, it must never deliver wrong data."""
+    def check_faulty(self, mode, r, tree, ctree, data, full):
+        """Narrow relaxation: the run may fail, it must never deliver wrong data.
+        `full` is what a fault-free run of the same mode wrote (None if that run
+        itself failed - then there is nothing to compare with)."""
         out = r["stdout"]
-        if mode == "json":
-            full = (self_json(tree) + "\n").encode("utf-8")
-        elif mode == "replace":
-            if not model.replace_precondition(ctree):
-                return
-            full = tree.flatten()
-        else:
-            full = None
+        if full is None and mode != "default":
+            return
         clean = r["status"] == 0 and not r["stderr"] and not r["crashed"]
         if clean:
             self.counters["fault_survived"] += 1
